@@ -32,6 +32,9 @@ def run(vh, st, tcfg, sdir, seed, goenv):
     rec = json.load(open(stats))
     info["recorder"] = {k: rec.get(k) for k in rec if k != "sample"}
     info["samples"] = rec.get("sample") or []
+    # what the recorder itself observed on the real code (panics, export / import failures)
+    rec_findings = [{"prop": x.get("prop"), "kind": x.get("kind"), "sig": x.get("sig"), "msg": x.get("msg"), "path": x.get("path") or [], "expected": None, "observed": None}
+                    for x in (rec.get("findings") or [])]
     lines = open(trace).read().splitlines()
     if len(lines) < 10:
         info["broken"] = "trace recorder produced %d events" % len(lines)
@@ -40,8 +43,17 @@ def run(vh, st, tcfg, sdir, seed, goenv):
     module, cfg = os.path.basename(st["module"]), os.path.basename(st["cfg"])
     r = _run_tlc(sdir, module, cfg, tcfg.get("timeout", 900))
     info["tlc"] = r.as_dict()
+    for ln in open(r.out_path, errors="replace"):
+        if "skipped" in ln[:16]:
+            try:
+                d = json.loads(ln)
+                d = json.loads(d) if isinstance(d, str) else d
+                # events of executions that the model could not follow digit by digit (decimal-inexact at the model's P): consumed without comparison
+                info["skipped_events"] = d["skipped"]
+            except Exception:
+                pass
     info["tlc_states"] = r.distinct
-    findings = []
+    findings = list(rec_findings)
     if r.violation:
         # an invariant of the specification is false in a state of a real execution
         m = re.search(r"Invariant (\w+) is violated", r.violation) or re.search(r"Action property (\w+) is violated", r.violation)
